@@ -15,3 +15,7 @@ def run(ctx, rep):
     more2.rule_arg_names(mod, rep, lambda f: re.match(r"p[sdcz]gssvx$|[sdcz]gsrfs$|[sdcz]gstrs$|sp_[sdcz]", f.name) is not None, floor=1)
     from ..rules import more3
     more3.rule_cursor_step(mod, rep)
+    from ..rules import more4
+    more4.rule_lstres_reset(mod, rep)
+    from ..rules import more4
+    more4.rule_extent_pairs(mod, rep)
